@@ -39,6 +39,10 @@ CHECKS = {
    technique="Coq proof (loop invariant + decreasing measure over the three cycle loops, induction on fuel; list lemmas for tiling and image update) + differential runs of the real tx_rx / tx_rx_sync_system_time / tx_rx_dc against a wire with random answers",
    text="Theorem c07_complete: for all three variants, every image/split/SubDevice list/logical start, every frame size from the smallest that carries one state check (plus the clock datagram), both integer modes and ANY device answers: the cycle terminates, and on success every image byte was sent exactly once in LRW datagrams tiling the logical window from its start, every frame fits the frame size and exactly one state check per SubDevice was sent. c07_frame (what each frame contains), c07_dc_once (one FRMW, first in the first frame, to the reference), c07_image_chunk (inputs take the returned bytes, outputs and all other bytes untouched), c07_cycle_info. Tied by 900 (quick) / 18000 debug+release (thorough) cycles on groups built through the hook constructor with every frame, final image, counter, state list and time compared with the model, and an independent Python oracle on the implementation's frames.",
    note="PARTIAL: the whole-cycle statements for the final image, the working-counter sum and the state list are proved per chunk / per frame (c07_image_chunk, model fields) and validated by the oracle, not yet lifted over the loop. Device answers are structurally well formed (arbitrary data and counters). The u16 counter sum overflow is a known finding. Known fixed: the no-DC-reference deadlock."),
+ "C10": dict(
+   technique="Coq proof (finite sweep over the 16 state values lifted to all lists; induction on the member list and on the wait rounds) + differential runs of the real TxRxResponse summaries and into_safe_op against scripted AL behaviour under a virtual clock",
+   text="Theorem c10_summaries: for EVERY list of reported 4-bit states the summaries say exactly what the devices reported (single state iff all equal and named; all_op iff non-empty and all OP; is_in_state(v) iff all report v). c10_transition_sound: for all groups, frame sizes, limits and ANY device answers, Ok implies the requested state was written to every member in group order and to nobody else, and then - before the timeout - a complete round of status checks (one per member, in order) had every answer naming the requested state. c10_members_only (also on failing paths), c10_refusal_is_error (working counter != 1 or error flag -> error), c10_no_room, c10_transition_ends (never a hang). Tied by 3000 (quick) / 40000 (thorough) cases: summaries on all lists up to length 3 and random longer ones, transitions of 0..64 members with storage sizes from 28 bytes (no room) to 1100, members accepting late, stalling, falling back, refusing or absent, with every frame and the result compared with the model, plus an independent Python oracle.",
+   note="The timeout is counted in frames of fixed virtual duration (the harness advances the clock per frame). request_into_op is documented not to wait and is outside the statement. Known fixed: summaries computed from the OR of the states (4fc6860b)."),
 }
 ORDER = [f"C{i:02d}" for i in range(1, 21)]
 
